@@ -144,7 +144,7 @@ def coxeter_sampling(tier, rng, rep):
                 perm = [idx[g] for g in gens]
                 Bexp_g = Bexp[np.ix_(perm, perm)]
                 B = np.asarray(G.bilinear_form(), dtype=float)
-                if np.max(np.abs(B - Bexp_g)) > 1e-12:
+                if not np.all(np.abs(B - Bexp_g) <= 1e-12):
                     rep.fail("bilinear_form", f"{B.tolist()} vs {Bexp_g.tolist()}", {**inp, "route": route}); return
                 geo = G.geometric_representation()
                 can = G.canonical_representation()
@@ -152,11 +152,11 @@ def coxeter_sampling(tier, rng, rep):
                 for a, g1 in enumerate(gens):
                     s = np.asarray(geo[g1] if route != "matrix_alphanum" else geo.element(g1, parse_simple=False), dtype=float)
                     c = np.asarray(can[g1] if route != "matrix_alphanum" else can.element(g1, parse_simple=False), dtype=float)
-                    if np.max(np.abs(s @ s - np.eye(rank))) > 1e-9 or np.max(np.abs(c @ c - np.eye(rank))) > 1e-9:
+                    if not np.all(np.abs(s @ s - np.eye(rank)) <= 1e-9) or not np.all(np.abs(c @ c - np.eye(rank)) <= 1e-9):
                         rep.fail("generator_involution", g1, {**inp, "route": route}); return
-                    if np.max(np.abs(s.T @ Bexp_g @ s - Bexp_g)) > 1e-9:
+                    if not np.all(np.abs(s.T @ Bexp_g @ s - Bexp_g) <= 1e-9):
                         rep.fail("geometric_preserves_cosine_form", g1, {**inp, "route": route}); return
-                    if np.max(np.abs(c @ s.T - np.eye(rank))) > 1e-9:
+                    if not np.all(np.abs(c @ s.T - np.eye(rank)) <= 1e-9):
                         rep.fail("canonical_is_dual_of_geometric", g1, {**inp, "route": route}); return
                     for b, g2 in enumerate(gens):
                         if b <= a:
@@ -181,9 +181,9 @@ def coxeter_sampling(tier, rng, rep):
                     for g1 in gens:
                         iso = hr.element(g1, parse_simple=False) if route == "matrix_alphanum" else hr[g1]
                         Mx = iso.proj_data
-                        if np.max(np.abs(Mx @ J @ Mx.T - J)) > 1e-7:
+                        if not np.all(np.abs(Mx @ J @ Mx.T - J) <= 1e-7):
                             rep.fail("hyperbolic_rep_in_O_d_1", g1, {**inp, "route": route}); return
-                        if np.max(np.abs(Mx @ Mx - np.eye(rank))) > 1e-7 or abs(np.linalg.det(Mx) + 1) > 1e-7 or abs(np.trace(Mx) - (rank - 2)) > 1e-7:
+                        if not np.all(np.abs(Mx @ Mx - np.eye(rank)) <= 1e-7) or not (abs(np.linalg.det(Mx) + 1) <= 1e-7) or not (abs(np.trace(Mx) - (rank - 2)) <= 1e-7):
                             rep.fail("hyperbolic_generators_are_reflections", g1, {**inp, "route": route}); return
             rep.attempt("coxeter_runs", {**inp, "route": route}, body)
             rep.case(key=(labels, rank, route), nontrivial=(rank >= 3 or any(l <= 0 for l in labels)), sample={**inp, "route": route} if labels == (3,) else None)
@@ -198,10 +198,10 @@ def triangle_angles(tier, rng, rep):
             if sum((1.0 / x if x > 0 else 0.0) for x in t) < 1 - 1e-9]
     if tier != 'thorough':
         trip = [trip[i] for i in sorted(rng.choice(len(trip), size=min(60, len(trip)), replace=False))]
-    rep.bound = f"{len(trip)} triples x 2 orders"
+    rep.bound = f"{len(trip)} triples x 3 cyclic orders x 2 routes (word by word / one composite isometry)"
     rep.exhaustive = tier == 'thorough'
     for t in trip:
-        for pqr in (t, (t[1], t[2], t[0])):
+        for pqr in (t, (t[1], t[2], t[0]), (t[2], t[0], t[1])):
             inp = {"triangle": list(pqr)}
 
             def body():
@@ -210,16 +210,24 @@ def triangle_angles(tier, rng, rep):
                 # vertex between generators (a,b) has label pqr[0], (b,c): pqr[1], (c,a): pqr[2]
                 rots = {"ab": hr["ab"], "bc": hr["bc"], "ca": hr["ca"]}
                 lab = {"ab": pqr[0], "bc": pqr[1], "ca": pqr[2]}
+                # both documented routes to the vertices: word by word, and one composite isometry of the three words
+                stacked = hr.isometries(["ab", "bc", "ca"]).fixed_point().proj_data
+                for route in ("single", "stacked"):
+                    if not one_route(route, rots, lab, stacked):
+                        return
+
+            def one_route(route, rots, lab, stacked):
                 verts = {}
-                for k_, R in rots.items():
-                    x = R.fixed_point().proj_data
-                    if np.max(np.abs(np.outer(x @ R.proj_data, x) - np.outer(x, x @ R.proj_data))) > 1e-6 * max(1, np.max(np.abs(x)) ** 2):
-                        rep.fail("vertex_is_fixed", k_, inp); return
+                for i_, (k_, R) in enumerate(rots.items()):
+                    x = R.fixed_point().proj_data if route == "single" else np.array(stacked[i_])
+                    inp["route"] = route
+                    if not np.all(np.abs(np.outer(x @ R.proj_data, x) - np.outer(x, x @ R.proj_data)) <= 1e-6 * max(1, np.max(np.abs(x)) ** 2)):
+                        rep.fail("vertex_is_fixed", k_, inp); return False
                     q = spec.mink(x, x) / (x @ x)
                     if lab[k_] > 0 and q > -1e-7:
-                        rep.fail("finite_vertex_is_interior", f"{k_}: q={q}", inp); return
+                        rep.fail("finite_vertex_is_interior", f"{k_}: q={q}", inp); return False
                     if lab[k_] <= 0 and abs(q) > 1e-6:
-                        rep.fail("infinite_label_vertex_is_ideal", f"{k_}: q={q}", inp); return
+                        rep.fail("infinite_label_vertex_is_ideal", f"{k_}: q={q}", inp); return False
                     verts[k_] = x
                 # interior angles at finite vertices via the law of cosines in the hyperboloid model
                 keys = ["ab", "bc", "ca"]
@@ -233,7 +241,8 @@ def triangle_angles(tier, rng, rep):
                         tvs.append(p_.unit_tangent_towards(h.Point(o.copy())))
                     ang = tvs[0].angle(tvs[1])
                     # parabolic fixed points (infinite labels) are eigenvectors of defective matrices: accuracy O(sqrt(eps))
-                    if abs(ang - np.pi / lab[k_]) > (1e-6 if min(pqr) > 0 else 2e-4):
-                        rep.fail("interior_angle", f"vertex {k_}: {ang} vs pi/{lab[k_]}", inp); return
+                    if not (abs(ang - np.pi / lab[k_]) <= (1e-6 if min(pqr) > 0 else 2e-4)):
+                        rep.fail("interior_angle", f"vertex {k_}: {ang} vs pi/{lab[k_]}", inp); return False
+                return True
             rep.attempt("triangle_runs", inp, body)
             rep.case(key=pqr, nontrivial=(min(pqr) <= 0 or len(set(pqr)) < 3), sample=inp if pqr == (2, 3, 7) else None)
